@@ -108,6 +108,13 @@ class Roles:
             for t, a in zip(target.elts, it.args):
                 ch |= self._bind(t, self.of(a))
             return ch
+        if isinstance(it, ast.Call) and (call_name(it) or "").split(".")[-1] \
+                == "product" and isinstance(target, (ast.Tuple, ast.List)) \
+                and len(target.elts) == len(it.args) and not it.keywords:
+            ch = False
+            for t, a in zip(target.elts, it.args):
+                ch |= self._bind(t, self.of(a))
+            return ch
         if isinstance(it, ast.Call) and call_name(it) == "enumerate" \
                 and isinstance(target, (ast.Tuple, ast.List)) \
                 and len(target.elts) == 2 and it.args:
